@@ -516,6 +516,14 @@ def gen_run_cases(run, n):
                       "options": {"nb_threads": run.rng.choice([1, 2, 3, 4]), "stop_on_failure": run.rng.random() < 0.15,
                                   "force_disabled": run.rng.random() < 0.1},
                       "saving": strategy, "backend": backend, "clock_step": run.rng.choice([0.125, 0.5, 1.0, 2.5])})
+        if backend == "json":
+            # the JSON backend's other configuration (pretty_formatting=True) and log messages that are hard to write to a text
+            # file: non-ASCII text, an astral character, a lone surrogate as os.fsdecode() produces for undecodable bytes
+            cases[-1]["json_pretty"] = run.rng.random() < 0.5
+            cases[-1]["payload_suffix"] = run.rng.choice(["", "", " caf\u00e9", " \U0001F34B", " \udce9.txt"])
+            run.count("json_runs_pretty_formatting" if cases[-1]["json_pretty"] else "json_runs_compact")
+            if cases[-1]["payload_suffix"]:
+                run.count("json_runs_with_non_ascii_log_text")
     return cases
 
 
